@@ -10,7 +10,7 @@
 From Coq Require Import List String ZArith.
 From JQ Require Import Base.Bytes Num.F64 Syntax.Ast Syntax.Parser Json.JValue Json.Decode.
 From JQ Require Import Sem.Value Sem.Natives Sem.Eval Sem.Driver.
-From JQ Require Import Spec.EvalInvSpec Proofs.EvalInv Proofs.EvalFaults Proofs.EvalFrames.
+From JQ Require Import Spec.EvalInvSpec Proofs.EvalInv Proofs.EvalFaults Proofs.EvalFrames Proofs.EvalDepth.
 Import ListNotations.
 
 (* every function of the evaluator and of the driver is balanced *)
@@ -69,6 +69,15 @@ Theorem history_independent : forall src funcs fz n rules bid off k i s s1,
   has_frame s1 /\ frame_names s1 = frame_names s.
 Proof. exact EvalFrames.history_independent. Qed.
 Print Assumptions history_independent.
+
+(* only genuinely nested calls count towards the recursion limit: whatever was executed for the
+   elements before, a call made by the rules of the next element gets its frame *)
+Theorem sequential_calls_do_not_accumulate : forall src funcs fz n rules bid off k i s s1 name,
+  frame_names s = [bs "<root>"] ->
+  rules_start src funcs fz n rules bid off k i s s1 ->
+  push_frame name s1 = (Ok true, pushed name s1).
+Proof. exact EvalDepth.sequential_calls_do_not_accumulate. Qed.
+Print Assumptions sequential_calls_do_not_accumulate.
 
 (* the whole run happens on the single <root> frame: only nested calls add depth *)
 Theorem run_at_root : forall src prog fz sels n files r s',
@@ -141,3 +150,10 @@ Proof.
   split; [vm_compute; discriminate|]. split; [unfold hcall; destruct (call_function _ _ _ _ _ _ _ _); reflexivity|].
   split; [vm_compute; eexists; reflexivity|]. split; vm_compute; reflexivity.
 Qed.
+
+(* 6000 calls one after the other (more than the nesting limit): no error *)
+Example ex_sequential_calls :
+  let r := eval_program 100000
+    (bs "function f(x) { return x } BEGIN { i = 0; while (i < 6000) { f(i); i = i + 1 } print i }") [] [] false in
+  r_outcome r = OOk /\ output_of (io (r_state r)) = [54%N; 48%N; 48%N; 48%N; 10%N].
+Proof. vm_compute. split; reflexivity. Qed.
